@@ -25,6 +25,18 @@ NoEnv == <<>>
 
 Init == st \in {[kind |-> "val", tn |-> n, v |-> Default(n, NoEnv), k |-> 0] : n \in Tops}
 
+(* a dictionary whose string key is not valid UTF-8: a JSON object cannot name such a member *)
+RECURSIVE HasBadKey(_, _)
+HasBadKey(tn, v) ==
+  LET t == TY(tn) IN
+  CASE t.k = "prim" -> FALSE
+    [] t.k = "struct" -> \E i \in 1..Len(t.fields) :
+                           IF IsOpt(t.fields[i]) THEN IsP(v[i]) /\ ~t.fields[i].isbit /\ HasBadKey(t.fields[i].t, PV(v[i]))
+                           ELSE HasBadKey(t.fields[i].t, v[i])
+    [] t.k = "union" -> HasBadKey(t.variants[v.i], v.v)
+    [] t.k = "array" -> \E j \in 1..Len(v) : HasBadKey(t.elem.t, v[j])
+    [] t.k = "dict" -> \E j \in 1..Len(v) : (DictKeyType(t) = "string" /\ ~UTF8Valid(v[j][1], 1)) \/ HasBadKey(t.elem.t, v[j])
+
 Enc(tn, v) == [tl1 |-> IF TY(tn).origin2 THEN <<>> ELSE Enc1(tn, NoEnv, v, TRUE).b,
                tl1b |-> IF TY(tn).origin2 THEN <<>> ELSE Enc1(tn, NoEnv, v, FALSE).b,
                tl2 |-> IF TY(tn).tl2 THEN Enc2(tn, v, FALSE) ELSE <<>>, json |-> WJ(tn, NoEnv, v, "canon")]
@@ -32,7 +44,7 @@ StepVal == /\ st.kind = "val" /\ st.k < K
            /\ \E w \in Mods(st.tn, NoEnv, st.v) :
                 /\ st' = [st EXCEPT !.v = w, !.k = @ + 1]
                 /\ EmitEdges => PrintT(ToJson(<<"@@", [kind |-> "edge", tn |-> st.tn, hastl2 |-> TY(st.tn).tl2,
-                                                       negzero |-> HasNegZero(st.tn, st.v) \/ HasNegZero(st.tn, w),
+                                                       negzero |-> HasNegZero(st.tn, st.v) \/ HasNegZero(st.tn, w), badkey |-> HasBadKey(st.tn, st.v) \/ HasBadKey(st.tn, w),
                                                        from |-> Enc(st.tn, st.v), to |-> Enc(st.tn, w)]>>))
 
 Muts(b) == {SubSeq(b, 1, j) : j \in 0..(Len(b) - 1)}
@@ -114,7 +126,7 @@ Payload ==
         tl1 |-> IF TY(st.tn).origin2 THEN <<>> ELSE Bytes(Enc1(st.tn, NoEnv, st.v, TRUE)),
         tl1b |-> IF TY(st.tn).origin2 THEN <<>> ELSE Bytes(Enc1(st.tn, NoEnv, st.v, FALSE)),
         small |-> ~TY(st.tn).origin2 /\ SmallElems(st.tn, NoEnv, st.v),
-        negzero |-> HasNegZero(st.tn, st.v),
+        negzero |-> HasNegZero(st.tn, st.v), badkey |-> HasBadKey(st.tn, st.v),
         tl2opt |-> HasTL2OnlyOpt(st.tn, st.v),
         hastl2 |-> TY(st.tn).tl2,
         tl2 |-> IF TY(st.tn).tl2 THEN Enc2(st.tn, st.v, FALSE) ELSE <<>>,
@@ -125,7 +137,7 @@ Payload ==
   ELSE IF st.kind = "fn"
   THEN LET t == TY(st.tn)  renv == ResEnv(st.tn, st.q)
            e2 == Enc2(t.res, st.r, TRUE) IN
-       [kind |-> "fn", tn |-> st.tn, hastl2 |-> t.tl2, negzero |-> HasNegZero(t.res, st.r),
+       [kind |-> "fn", tn |-> st.tn, hastl2 |-> t.tl2, negzero |-> HasNegZero(t.res, st.r), badkey |-> HasBadKey(t.res, st.r),
         small |-> SmallElems(t.res, renv, st.r),
         req |-> Bytes(Enc1(st.tn, NoEnv, st.q, FALSE)),
         res1 |-> Bytes(Enc1(t.res, renv, st.r, t.resBare)),
@@ -137,12 +149,12 @@ Payload ==
   THEN [kind |-> "bytes2", tn |-> st.tn, b |-> st.b,
         dec2ok |-> Dec2(st.tn, st.b, 1, Len(st.b)).ok]
   ELSE IF st.kind = "reenc"
-  THEN [kind |-> "reenc", tn |-> st.tn, m |-> st.m, origin2 |-> TY(st.tn).origin2, negzero |-> HasNegZero(st.tn, st.v),
+  THEN [kind |-> "reenc", tn |-> st.tn, m |-> st.m, origin2 |-> TY(st.tn).origin2, negzero |-> HasNegZero(st.tn, st.v), badkey |-> HasBadKey(st.tn, st.v),
         b |-> ReBytes, accept |-> st.m # "oversize",
         tl2 |-> Enc2(st.tn, st.v, FALSE),
         tl1 |-> IF TY(st.tn).origin2 THEN <<>> ELSE Bytes(Enc1(st.tn, NoEnv, st.v, TRUE))]
   ELSE IF st.kind = "json"
-  THEN [kind |-> "json", tn |-> st.tn, m |-> st.m, bad |-> st.m \in BadModes, negzero |-> HasNegZero(st.tn, st.v),
+  THEN [kind |-> "json", tn |-> st.tn, m |-> st.m, bad |-> st.m \in BadModes, negzero |-> HasNegZero(st.tn, st.v), badkey |-> HasBadKey(st.tn, st.v),
         alt |-> WJ(st.tn, NoEnv, st.v, st.m),
         json |-> WJ(st.tn, NoEnv, st.v, "canon"),
         tl1 |-> IF TY(st.tn).origin2 THEN <<>> ELSE Bytes(Enc1(st.tn, NoEnv, st.v, TRUE)),
